@@ -97,7 +97,7 @@ Formats == [
       F("metaKeyLen",   "meta", 1, 1, "le", "len", 1),
       F("metaValueLen", "meta", 3, 1, "le", "len", 1) >>,
   gsfa_linkedlog |-> <<
-      F("recordLen",    "record0", 0, 0, "uvarint", "len", 1),
+      F("recordLen",    "record0", 0, 0, "uvarint", "sub", 9),
       F("zstdMagic",    "record0", 1, 4, "le", "plain", 0),
       F("zstdFrameHdr", "record0", 5, 1, "le", "plain", 0) >>,
   car |-> <<
@@ -113,11 +113,13 @@ Formats == [
       F("metaValueLen", "start", 3, 1, "le", "len", 1) >>
 ]
 
-Classes == {"zero", "one", "origm1", "origp1", "size", "sizep1", "pow31", "pow32m1", "pow63", "max"}
+\* unitm1 / unit / unitp1: one below, at and one above the constant the field's guard compares with (the field's `unit`:
+\* minimum header length 13, maximum value size 252, hash length 3, 9 bytes of pointer behind a record's payload, ...)
+Classes == {"zero", "one", "origm1", "origp1", "size", "sizep1", "pow31", "pow32m1", "pow63", "max", "unitm1", "unit", "unitp1"}
 
 \* abstract value of a class for a field whose valid value is consistent (orig = 2, remaining input = Size)
 Orig == 2
-Val(c) == CASE c = "zero" -> 0 [] c = "one" -> 1 [] c = "origm1" -> Orig - 1 [] c = "origp1" -> Orig + 1
+Val(c) == CASE c = "zero" -> 0 [] c = "one" -> 1 [] c \in {"origm1", "unitm1"} -> Orig - 1 [] c \in {"origp1", "unitp1"} -> Orig + 1 [] c = "unit" -> Orig
             [] c = "size" -> Size [] c = "sizep1" -> Size + 1 [] OTHER -> Huge
 
 VARIABLES fmt, mut, class, pc, outcome, alloc
@@ -160,7 +162,7 @@ Step == /\ outcome = "running"
                           ELSE IF ~Guarded /\ fld.role \in {"len", "count"} /\ verdict = "error" /\ v > alloc THEN v ELSE alloc
               /\ IF verdict = "go"
                    THEN \* a changed plain value (magic, version, hash, ...) is an ordinary mismatch: error or a different answer
-                        /\ outcome' = IF pc = mut /\ fld.role = "plain" /\ class \notin {"origm1"} THEN "error" ELSE "running"
+                        /\ outcome' = IF pc = mut /\ fld.role = "plain" /\ class \notin {"origm1", "unit"} THEN "error" ELSE "running"
                         /\ pc' = pc + 1
                    ELSE /\ outcome' = verdict
                         /\ pc' = pc
